@@ -79,10 +79,13 @@ def ops : List (String × Op) := [
         | .compound c => showG showBool (Gen.CompoundInterval_is_overlapping (LoopGlue.toCI c))
         | _ => "ok false")),
   ("ghasov", do
-      let a ← pLoc; let b ← pLoc
+      let a ← pLoc; let b ← pLoc; let ms ← pBool
       pure (withLoc a fun x => withLoc b fun y => match x, y with
-        | .compound c, .single bb sb => showG showBool (Gen.CompoundInterval_has_overlap (LoopGlue.toCI c) (LoopGlue.toSI bb sb))
-        | _, _ => "bad-args ghasov expects a compound and a single location")),
+        | .compound c, .single bb sb =>
+            showG showBool (Gen.CompoundInterval_has_overlap (LoopGlue.toCI c) (LoopGlue.toSI bb sb) ms)
+        | .single ba sa, .single bb sb =>
+            showG showBool (Gen.SingleInterval_has_overlap (LoopGlue.toSI ba sa) (LoopGlue.toSI bb sb) ms)
+        | _, _ => "bad-args ghasov expects a compound or single location and a single location")),
   ("ggaplist", do
       let l ← pLoc
       pure (withLoc l fun x => match LoopGlue.ggaplist x with
